@@ -59,6 +59,49 @@ fn check_result(devs: &[SubDevice], r: Result<(), Error>) {
     }
 }
 
+//@h name=dc_find_parent_n4 props=C17 bounded="4 earlier devices with symbolic link reports (>= 1 open port each)" fn=src/dc.rs::find_subdevice_parent obligation="find_subdevice_parent: the parent is the previous device, or - when the previous device is a line end - the NEAREST earlier junction (fork/cross); Err(Topology) iff there is none; no parent for the first device"
+#[cfg_attr(kani, kani::proof)]
+#[cfg_attr(kani, kani::unwind(10))]
+#[cfg_attr(all(test, verif_replay), test)]
+fn dc_find_parent_n4() {
+    let parents = [
+        dev(0, any_links([0; 4]), false),
+        dev(1, any_links([0; 4]), false),
+        dev(2, any_links([0; 4]), false),
+        dev(3, any_links([0; 4]), false),
+    ];
+    let mut open = [0u8; 4];
+    let mut i = 0;
+    while i < 4 {
+        open[i] = parents[i].ports.open_ports();
+        vk::assume(open[i] >= 1);
+        i += 1;
+    }
+    let n: usize = vk::any();
+    vk::assume(n <= 4);
+    let me = dev(n as u16, any_links([0; 4]), false);
+    let r = find_subdevice_parent(&parents[..n], &me);
+    if n == 0 {
+        assert!(r == Ok(None));
+    } else if open[n - 1] != 1 {
+        assert!(r == Ok(Some((n - 1) as u16)), "previous device is the parent unless it is a line end");
+    } else {
+        // nearest earlier junction, searching backwards from n-2
+        let mut want: Option<u16> = None;
+        let mut k = n - 1;
+        while k > 0 {
+            k -= 1;
+            if want.is_none() && open[k] >= 3 {
+                want = Some(k as u16);
+            }
+        }
+        match want {
+            Some(w) => assert!(r == Ok(Some(w)), "after a line end the parent is the NEAREST earlier junction"),
+            None => assert!(r == Err(Error::Topology)),
+        }
+    }
+}
+
 //@h name=dc_assign_n1 props=C17 bounded="N=1 device; link flags, DC support and all port times symbolic" fn=src/dc.rs::assign_parent_relationships obligation="a single device with ANY link report and any port times: Ok or Err(Topology), never a panic"
 #[cfg_attr(kani, kani::proof)]
 #[cfg_attr(kani, kani::unwind(12))]
